@@ -76,10 +76,16 @@ fn run(seed: u64, accept: &AnyMessage) -> Option<String> {
             9 => { what = "RequestBlocks".into(); b.execute(InitiatorCommand::RequestBlocks((proto::Point::Specific(60, vec![3; 32]), proto::Point::Specific(70, vec![4; 32])))); }
             10 | 11 => { let w = &mut wires[k]; if w.connect_asked && !w.connected { w.connected = true; what = format!("Connected({k})"); b.handle_io(InterfaceEvent::Connected(pid(k as u64))); } else { continue; } }
             12 | 13 | 14 | 15 => { let w = &mut wires[k]; match w.unconfirmed.pop_front() { Some((m, ans)) => { what = format!("Sent({k}, {})", short(&m)); w.inbound.extend(ans); b.handle_io(InterfaceEvent::Sent(pid(k as u64), m)); } None => continue } }
-            _ => { let w = &mut wires[k]; match w.inbound.pop_front() { Some(m) => { what = format!("Recv({k}, {})", short(&m));
+            _ => { let w = &mut wires[k];
+                    // a delivery carries what has arrived: one message, or in the prompt mode up to three at once (the interface hands over a Vec)
+                    let want = if seed % 2 == 1 { 1 + r.below(3) as usize } else { 1 };
+                    let mut batch: Vec<AnyMessage> = Vec::new();
+                    while batch.len() < want { match w.inbound.pop_front() { Some(m) => batch.push(m), None => break } }
+                    if batch.is_empty() { continue; }
+                    what = format!("Recv({k}, {})", batch.iter().map(short).collect::<Vec<_>>().join(" + "));
                     // the shadow follows what the INITIATOR has emitted and received: an answer counts from the moment it is delivered
-                    if w.shadow.apply(&m).is_err() { return Some(format!("seed {seed}: the simulated responder is not conformant ({})", short(&m))); }
-                    b.handle_io(InterfaceEvent::Recv(pid(k as u64), vec![m])); } None => continue } }
+                    for m in &batch { if w.shadow.apply(m).is_err() { return Some(format!("seed {seed}: the simulated responder is not conformant ({})", short(m))); } }
+                    b.handle_io(InterfaceEvent::Recv(pid(k as u64), batch)); }
         }
         log.push(what);
         // what the behaviour emits goes on the wire now, in order; in the PROMPT mode (every second seed) the interface confirms each send before anything else
@@ -91,7 +97,8 @@ fn run(seed: u64, accept: &AnyMessage) -> Option<String> {
             std::task::Poll::Ready(Some(BehaviorOutput::InterfaceCommand(InterfaceCommand::Send(p, m)))) => {
                 let Some(i) = (1..3).find(|i| pid(*i as u64) == p) else { continue };
                 if let Err(proto_name) = wires[i].shadow.apply(&m) {
-                    return Some(format!("seed {seed}: after [{}] the initiator emits {} to peer {i}, which the {proto_name} does not permit after the messages already exchanged with that peer", log.join(", "), short(&m)));
+                    return Some(format!("seed {seed}: after [{}] the initiator emits {} to peer {i}, which the {proto_name} does not permit after the messages already exchanged with that peer [trigger={}]", log.join(", "), short(&m),
+                        match log.last().map(|l| l.as_str()).unwrap_or("") { l if l.starts_with("Recv(") => "a_delivery", l if l.starts_with("Sent(") => "a_confirmation", l if l.starts_with("Connected(") || l.starts_with("Disconnected(") => "a_connection_event", _ => "a_command" }));
                 }
                 STATS.with(|st| *st.borrow_mut().entry(short(&m).chars().take(24).collect::<String>()).or_insert(0u64) += 1);
                 let ans = answers(&m, &mut r, accept);
@@ -130,14 +137,16 @@ async fn main() {
         return;
     }
     let mut found: Vec<String> = Vec::new();
-    for seed in 1..=seqs { if let Some(v) = run(seed, &accept) { if std::env::var("C28_STATS").is_ok() && found.len() < 3 { println!("found: {}", &v[..v.len().min(300)]); } found.push(v); if found.len() >= 2000 { break; } } }
+    for seed in 1..=seqs { if let Some(v) = run(seed, &accept) { if std::env::var("C28_STATS").is_ok() && found.len() < 3 { println!("found: ...{}", v.chars().rev().take(500).collect::<Vec<_>>().into_iter().rev().collect::<String>()); } found.push(v); if found.len() >= 2000 { break; } } }
     // one line per (protocol, emitted message kind): the shortest schedule each
     let mut by_kind: std::collections::BTreeMap<String, String> = Default::default();
     for v in found {
         let proto_name = ["handshake", "keep-alive", "peer-sharing", "chain-sync", "block-fetch"].iter().find(|k| v.contains(&format!("the {k} state machine"))).map(|k| k.replace('-', "_")).unwrap_or_else(|| "other".into());
         let in_state: String = v.split("state machine in state ").nth(1).map(|t| t.split(' ').next().unwrap_or("?").to_string()).unwrap_or_else(|| "?".into());
         let kind: String = v.split("the initiator emits ").nth(1).map(|t| t.split(|c: char| !c.is_alphanumeric()).filter(|x| !x.is_empty()).nth(1).unwrap_or("message").to_string()).unwrap_or_else(|| "responder".into());
-        let key = format!("C28.{proto_name}.{kind}_emitted_in_state_{in_state}");
+        // what made the behaviour emit it: the last event of the schedule — a command (housekeeping included), a confirmation, a delivery or a connection event
+        let trigger: String = v.split("[trigger=").nth(1).map(|t| t.split(']').next().unwrap_or("?").to_string()).unwrap_or_else(|| "?".into());
+        let key = format!("C28.{proto_name}.{kind}_emitted_in_state_{in_state}_on_{trigger}");
         let e = by_kind.entry(key).or_insert_with(|| v.clone()); if v.len() < e.len() { *e = v; } }
     for (k, v) in &by_kind { println!("DEVIATION: {k} {v}"); }
     if std::env::var("C28_STATS").is_ok() { STATS.with(|st| println!("emitted: {:?}", st.borrow())); }
